@@ -1149,6 +1149,8 @@ int cs_recipe(cs_scenario *sc, int recipe, int ev, int av, int pv, int kv)
     l22 = mk_value_param(sc, kv, -0.08 + 0.10 * I, 0.01 * I, 0.0);
 
     if (v->type == VNACAL_T16 || v->type == VNACAL_U16) {
+	if (recipe == 2)
+	    return -1;
 	if ((recipe == 0 && P <= 2)) {
 	    if (P == 1) {
 		int r[3] = { ps, po, pm };
@@ -1262,6 +1264,42 @@ int cs_recipe(cs_scenario *sc, int recipe, int ev, int av, int pv, int kv)
 		    break;
 		push_std(sc, SK_THROUGH, 2, ports, none, tv, ev, av, pv);
 		push_std(sc, SK_LINE, 2, ports, ln, NULL, ev, av, pv);
+	    }
+	}
+	return 0;
+    }
+    if (recipe == 2) {
+	/*
+	 * the classical sequence with an isolation step: short, open and
+	 * match on each port, measured on that port only (1 x 1 matrices
+	 * where the shape allows); then loads on all ports at once with the
+	 * full measurement matrix, entered as a matrix standard whose
+	 * off-diagonal cells are explicitly zero: the only standard that
+	 * shows the leakage; then throughs and a line.
+	 */
+	int r[3] = { ps, po, pm };
+	int ports[CS_MAXP], iso[NS];
+
+	if (P < 2)
+	    return -1;
+	for (int p = 1; p <= sq; ++p)
+	    for (int k = 0; k < 3; ++k)
+		push_std(sc, SK_REFLECT, 1, &p, &r[k], NULL, ev, 3, pv);
+	for (int i = 0; i < P; ++i) {
+	    ports[i] = i + 1;
+	    for (int j = 0; j < P; ++j)
+		iso[i * P + j] = i == j ? (i & 1 ? l11 : pm) : -1;
+	}
+	push_std(sc, SK_DENSE, P, ports, iso, NULL, ev, 0, pv);
+	for (int p0 = 1; p0 <= (is_colsys(v->type) ? P - 1 : 1); ++p0) {
+	    for (int q = p0 + 1; q <= P; ++q) {
+		int pp[2] = { p0, q };
+		int none[4] = { -1, -1, -1, -1 };
+		cs_c tv[4] = { 0, 1, 1, 0 };
+		int ln[4] = { l11, l12, l21, l22 };
+		push_std(sc, SK_THROUGH, 2, pp, none, tv, ev, av, pv);
+		if (p0 == 1)
+		    push_std(sc, SK_LINE, 2, pp, ln, NULL, ev, av, pv);
 	    }
 	}
 	return 0;
